@@ -630,7 +630,7 @@ Section CacheProofs.
 
   (* ---- get_file ---- *)
   Lemma get_inv s n t ch : Inv s -> In n K ->
-    exists s', get_file C clen cmem dirsize true true s n t ch =
+    exists s', get_file C clen cmem dirsize true true true s n t ch =
                  (s', match file_of C (lookup C (c_disk C s) n) with
                       | None => inr FileNotFound
                       | Some c => if clen c >? c_max C s then inr MemoryErr else inl c
@@ -672,14 +672,14 @@ Section CacheProofs.
         - exact I7.
         - intros m Hm. apply keys_aset in Hm. destruct Hm as [Hm| ->]; [apply I8; exact Hm | exact HnK]. }
       destruct (ufm_inv n s1 c t ch M El HnK) as (s' & Hu & Hi & Hd & Hm).
-      fold s1. rewrite Hu. eexists. split; [reflexivity|]. split; [exact Hi|].
+      fold s1. rewrite Hu. unfold finish_task. eexists. split; [reflexivity|]. split; [exact Hi|].
       unfold resolve. cbn [c_disk c_max]. split; [rewrite Hd | rewrite Hm]; reflexivity.
   Qed.
 
   (* ---- update_file ---- *)
   Lemma update_inv s n c t ch : Inv s -> In n K ->
-    if clen c >? c_max C s then update_file C clen cmem true true s n c t ch = (s, inr MemoryErr)
-    else exists s', update_file C clen cmem true true s n c t ch = (s', inl true) /\ Inv s' /\ c_max C s' = c_max C s /\
+    if clen c >? c_max C s then update_file C clen cmem true true true s n c t ch = (s, inr MemoryErr)
+    else exists s', update_file C clen cmem true true true s n c t ch = (s', inl true) /\ Inv s' /\ c_max C s' = c_max C s /\
                     lookup C (c_disk C s') n = Some (File c) /\
                     forall k, In k K -> k <> n -> file_of C (lookup C (c_disk C s') k) = file_of C (lookup C (c_disk C s) k).
   Proof.
@@ -732,7 +732,7 @@ Section CacheProofs.
       - intros m Hm. apply keys_aset in Hm. destruct Hm as [Hm| ->]; [|exact HnK].
         apply keys_aremove in Hm. apply I8. tauto. }
     destruct (ufm_inv n s1 c t ch M Hl2 HnK) as (s' & Hu & Hi & Hd & Hmx).
-    fold s1. rewrite Hu. eexists. split; [reflexivity|]. split; [exact Hi|].
+    fold s1. rewrite Hu. unfold finish_task. eexists. split; [reflexivity|]. split; [exact Hi|].
     unfold resolve. cbn [c_disk c_max]. rewrite Hd, Hmx. unfold s1. cbn [c_disk c_max].
     split; [reflexivity|]. split; [exact Hl2 | exact Hoth].
   Qed.
@@ -767,6 +767,49 @@ Section CacheProofs.
       constructor; cbn [c_entries c_heap c_mem c_max c_disk]; assumption.
   Qed.
 
+  (* the entries whose contents the cache really holds *)
+  Definition held (es : list (name * entry)) : list (name * entry) :=
+    filter (fun ne => match e_fut C (snd ne) with FOk _ => negb (e_writing C (snd ne)) | _ => false end) es.
+
+  Lemma held_good es d : (forall m e, In (m, e) es -> good d m e) -> held es = es.
+  Proof.
+    induction es as [|[m e] es IH]; intros H; simpl; [reflexivity|].
+    destruct (H m e (or_introl eq_refl)) as (Hw & c & Hf & _). rewrite Hf, Hw. simpl. f_equal. apply IH. intros m' e' Hin. apply H. right. exact Hin.
+  Qed.
+
+  Lemma held_app a b : held (a ++ b) = held a ++ held b.
+  Proof. apply filter_app. Qed.
+
+  Lemma in_assoc_inv (es : list (name * entry)) m e : NoDup (keys es) -> In (m, e) es -> assoc es m = Some e.
+  Proof. apply in_assoc. Qed.
+
+  (* T16.fault — a load that fails (the task runs through _run_task): the get answers with the error and the cache is
+     exactly as before: no entry, no heap item, current_memory_usage untouched.  A cached key needs no load. *)
+  Lemma fault_inv s n t ch e : Inv s -> In n K ->
+    exists s' r, get_file_fault C clen cmem dirsize true true true s n t ch e = (s', r) /\
+                 Inv s' /\ c_disk C s' = c_disk C s /\ c_max C s' = c_max C s /\
+                 (assoc (c_entries C s) n = None -> file_of C (lookup C (c_disk C s) n) <> None ->
+                  (forall c, lookup C (c_disk C s) n = Some (File c) -> clen c <= c_max C s) -> s' = s /\ r = inr e).
+  Proof.
+    intros I HnK. unfold get_file_fault.
+    destruct (inv_disk _ I n HnK) as [Hnd _].
+    destruct (lookup C (c_disk C s) n) as [[c|]|] eqn:El; [| congruence |].
+    2:{ exists s, (inr FileNotFound). split; [reflexivity|]. split; [exact I|]. split; [reflexivity|]. split; [reflexivity|].
+        intros _ H. exfalso. apply H. reflexivity. }
+    destruct (clen c >? c_max C s) eqn:Egt.
+    { exists s, (inr MemoryErr). split; [reflexivity|]. split; [exact I|]. split; [reflexivity|]. split; [reflexivity|].
+      intros _ _ H. specialize (H c eq_refl). rewrite Z.gtb_ltb in Egt. apply Z.ltb_lt in Egt. lia. }
+    destruct (assoc (c_entries C s) n) as [info|] eqn:Ea.
+    - destruct (get_inv s n t ch I HnK) as (s' & Hg & Hi & Hd & Hm). rewrite Hg. eexists s', _. split; [reflexivity|].
+      split; [exact Hi|]. split; [exact Hd|]. split; [exact Hm|]. intros H. discriminate.
+    - assert (Es : finish_task C true (set_entry C s n (mkE C false (clen c) FPending)) n (inr e) = s).
+      { unfold finish_task, forget, set_entry. cbn [c_disk c_entries c_heap c_mem c_max].
+        rewrite aremove_aset_same, (assoc_aremove_eq _ _ Ea).
+        rewrite without_absent by (rewrite (inv_heap _ I); apply assoc_none_keys; exact Ea).
+        destruct s; reflexivity. }
+      rewrite Es. exists s, (inr e). split; [reflexivity|]. split; [exact I|]. split; [reflexivity|]. split; [reflexivity|]. auto.
+  Qed.
+
   Definition norm_max (mx : Z) : Z := if Z.eqb mx 0 then default_max else mx.
 
   Lemma open_inv d mx : disk_ok C K d -> 0 <= mx -> Inv (open_cache C d mx).
@@ -787,18 +830,18 @@ Section CacheProofs.
     match o with
     | OSet n _ _ _ | OGet n _ _ | OUnload n => In n K
     | OReopen mx => 0 <= mx
-    | OGetFault _ _ _ _ => False          (* faults are outside the histories of the refinement theorems *)
+    | OGetFault n _ _ _ => In n K
     end.
 
   Definition Rel (s : cache) (sp : sstate C) : Prop :=
     c_max C s = s_max C sp /\ forall k, In k K -> assoc (s_map C sp) k = file_of C (lookup C (c_disk C s) k).
 
   Lemma step_refines s sp o : Inv s -> Rel s sp -> op_ok o ->
-    exists s' x, kvs_step C clen cmem dirsize true true true s o = (s', x) /\
-                 spec_step C clen sp o = (fst (spec_step C clen sp o), x) /\
+    exists s' x, kvs_step C clen cmem dirsize true true true true s o = (s', x) /\
+                 (is_fault C o = false -> spec_step C clen sp o = (fst (spec_step C clen sp o), x)) /\
                  Inv s' /\ Rel s' (fst (spec_step C clen sp o)).
   Proof.
-    intros I [Rm Rf] Hok. destruct o as [n c t ch|n t ch|n|mx|n t ch e]; cbn [kvs_step spec_step op_ok] in *; [| | | |contradiction].
+    intros I [Rm Rf] Hok. destruct o as [n c t ch|n t ch|n|mx|n t ch e]; cbn [kvs_step spec_step op_ok is_fault] in *.
     - pose proof (update_inv s n c t ch I Hok) as U. rewrite <- Rm.
       destruct (clen c >? c_max C s) eqn:Egt.
       + rewrite U. exists s, (RErr MemoryErr). cbn [fst]. split; [reflexivity|]. split; [reflexivity|]. split; [exact I | split; assumption].
@@ -822,71 +865,32 @@ Section CacheProofs.
     - exists (reopen C s mx), RNone. cbn [fst]. split; [reflexivity|]. split; [reflexivity|].
       split; [apply open_inv; [exact (inv_disk _ I) | exact Hok]|].
       split; [reflexivity | intros k Hk; apply Rf; exact Hk].
+    - destruct (fault_inv s n t ch e I Hok) as (s' & r & Hg & Hi & Hd & Hmx & _). rewrite Hg.
+      assert (HR : Rel s' sp) by (split; [rewrite Hmx; exact Rm | intros k Hk; rewrite Hd; apply Rf; exact Hk]).
+      cbn [fst]. destruct r as [c|x]; [|destruct x]; eexists s', _; (split; [reflexivity|]); (split; [discriminate|]); split; assumption.
   Qed.
 
   Lemma run_refines : forall ops s sp, Inv s -> Rel s sp -> Forall op_ok ops ->
-    snd (kvs_run C clen cmem dirsize true true true s ops) = snd (spec_run C clen sp ops) /\
-    Inv (fst (kvs_run C clen cmem dirsize true true true s ops)) /\
-    Rel (fst (kvs_run C clen cmem dirsize true true true s ops)) (fst (spec_run C clen sp ops)).
+    mask C ops (snd (kvs_run C clen cmem dirsize true true true true s ops)) = mask C ops (snd (spec_run C clen sp ops)) /\
+    Inv (fst (kvs_run C clen cmem dirsize true true true true s ops)) /\
+    Rel (fst (kvs_run C clen cmem dirsize true true true true s ops)) (fst (spec_run C clen sp ops)).
   Proof.
     induction ops as [|o ops IH]; intros s sp I R Hok; [simpl; auto|].
     inversion Hok as [|? ? Ho Hops]; subst.
     destruct (step_refines s sp o I R Ho) as (s' & x & Hk & Hs & Hi & Hr).
-    cbn [kvs_run spec_run]. rewrite Hk, Hs.
+    cbn [kvs_run spec_run]. rewrite Hk.
     destruct (IH s' (fst (spec_step C clen sp o)) Hi Hr Hops) as (E1 & E2 & E3).
-    destruct (kvs_run C clen cmem dirsize true true true s' ops) as [s2 xs] eqn:Ek.
-    destruct (spec_run C clen (fst (spec_step C clen sp o)) ops) as [sp2 ys] eqn:Es.
-    cbn [fst snd] in *. subst ys. auto.
+    destruct (spec_step C clen sp o) as [sp1 y] eqn:Ey. cbn [fst] in *.
+    destruct (kvs_run C clen cmem dirsize true true true true s' ops) as [s2 xs] eqn:Ek.
+    destruct (spec_run C clen sp1 ops) as [sp2 ys] eqn:Es.
+    cbn [fst snd mask] in *. split; [|auto].
+    destruct (is_fault C o) eqn:Ef; [rewrite E1; reflexivity|].
+    specialize (Hs eq_refl). inversion Hs; subst. rewrite E1. reflexivity.
   Qed.
 
-  (* the entries whose contents the cache really holds *)
-  Definition held (es : list (name * entry)) : list (name * entry) :=
-    filter (fun ne => match e_fut C (snd ne) with FOk _ => negb (e_writing C (snd ne)) | _ => false end) es.
-
-  Lemma held_good es d : (forall m e, In (m, e) es -> good d m e) -> held es = es.
+  Lemma step_inv s o : Inv s -> op_ok o -> Inv (fst (kvs_step C clen cmem dirsize true true true true s o)).
   Proof.
-    induction es as [|[m e] es IH]; intros H; simpl; [reflexivity|].
-    destruct (H m e (or_introl eq_refl)) as (Hw & c & Hf & _). rewrite Hf, Hw. simpl. f_equal. apply IH. intros m' e' Hin. apply H. right. exact Hin.
-  Qed.
-
-  Lemma held_app a b : held (a ++ b) = held a ++ held b.
-  Proof. apply filter_app. Qed.
-
-  Lemma in_assoc_inv (es : list (name * entry)) m e : NoDup (keys es) -> In (m, e) es -> assoc es m = Some e.
-  Proof. apply in_assoc. Qed.
-
-  (* T16.fault — exactly what a failed load does: the get answers with the error; disk, heap, current_memory_usage and
-     the limit are unchanged; one entry is added for the key, holding the failed future and the on-disk size that was
-     never added to current_memory_usage.  Hence the accounting over the HELD entries is exactly as before. *)
-  Theorem failed_load_effect s n t ch e c :
-    Inv s -> lookup C (c_disk C s) n = Some (File c) -> clen c <= c_max C s -> assoc (c_entries C s) n = None ->
-    let s' := fst (get_file_fault C clen cmem dirsize true true s n t ch e) in
-    snd (get_file_fault C clen cmem dirsize true true s n t ch e) = inr e /\
-    c_disk C s' = c_disk C s /\ c_heap C s' = c_heap C s /\ c_mem C s' = c_mem C s /\ c_max C s' = c_max C s /\
-    c_entries C s' = c_entries C s ++ [(n, mkE C false (clen c) (FErr e))] /\
-    held (c_entries C s') = c_entries C s /\ c_mem C s' = sumb (held (c_entries C s')) /\ 0 <= c_mem C s' <= c_max C s'.
-  Proof.
-    intros I Hl Hle Ha. cbn zeta. unfold get_file_fault. rewrite Hl.
-    destruct (clen c >? c_max C s) eqn:Eg; [rewrite Z.gtb_ltb in Eg; apply Z.ltb_lt in Eg; lia|].
-    rewrite Ha. cbn [fst snd]. split; [reflexivity|].
-    unfold resolve, set_entry. cbn [c_disk c_heap c_mem c_max c_entries].
-    assert (Hent : map (fun ne : name * entry => match e_fut C (snd ne) with
-                        | FPending => (fst ne, mkE C (e_writing C (snd ne)) (e_bytes C (snd ne)) (FErr e)) | _ => ne end)
-                       (aset (c_entries C s) n (mkE C false (clen c) FPending))
-                   = c_entries C s ++ [(n, mkE C false (clen c) (FErr e))]).
-    { unfold aset. rewrite (assoc_aremove_eq _ _ Ha), map_app. simpl. f_equal.
-      rewrite <- (map_id (c_entries C s)) at 2. apply map_ext_in. intros [m em] Hin. simpl.
-      destruct (inv_good _ I m em (in_assoc_inv _ _ _ (inv_nd _ I) Hin)) as (_ & c0 & Hf & _). rewrite Hf. reflexivity. }
-    rewrite Hent. repeat (split; [reflexivity|]).
-    assert (Hh : held (c_entries C s ++ [(n, mkE C false (clen c) (FErr e))]) = c_entries C s).
-    { rewrite held_app. simpl. rewrite app_nil_r. apply (held_good _ (c_disk C s)).
-      intros m em Hin. apply (inv_good _ I). apply in_assoc_inv; [exact (inv_nd _ I) | exact Hin]. }
-    rewrite Hh. split; [reflexivity|]. split; [exact (inv_mem _ I) | exact (inv_le _ I)].
-  Qed.
-
-  Lemma step_inv s o : Inv s -> op_ok o -> Inv (fst (kvs_step C clen cmem dirsize true true true s o)).
-  Proof.
-    intros I Hok. destruct o as [n c t ch|n t ch|n|mx|n t ch e]; cbn [kvs_step op_ok] in *; [| | | |contradiction].
+    intros I Hok. destruct o as [n c t ch|n t ch|n|mx|n t ch e]; cbn [kvs_step op_ok] in *.
     - pose proof (update_inv s n c t ch I Hok) as U. destruct (clen c >? c_max C s).
       + rewrite U. exact I.
       + destruct U as (s' & Hu & Hi & _). rewrite Hu. exact Hi.
@@ -894,16 +898,17 @@ Section CacheProofs.
       destruct (file_of C (lookup C (c_disk C s) n)) as [c|]; [destruct (clen c >? c_max C s)|]; exact Hi.
     - apply unload_inv. exact I.
     - apply open_inv; [exact (inv_disk _ I) | exact Hok].
+    - destruct (fault_inv s n t ch e I Hok) as (s' & r & Hg & Hi & _). rewrite Hg. destruct r as [c|[]]; exact Hi.
   Qed.
 
-  Lemma run_inv : forall ops s, Inv s -> Forall op_ok ops -> Inv (fst (kvs_run C clen cmem dirsize true true true s ops)).
+  Lemma run_inv : forall ops s, Inv s -> Forall op_ok ops -> Inv (fst (kvs_run C clen cmem dirsize true true true true s ops)).
   Proof.
     induction ops as [|o ops IH]; intros s I Hok; [exact I|].
     inversion Hok as [|? ? Ho Hops]; subst. cbn [kvs_run].
     pose proof (step_inv s o I Ho) as Hi.
-    destruct (kvs_step C clen cmem dirsize true true true s o) as [s1 x]. cbn [fst] in Hi.
+    destruct (kvs_step C clen cmem dirsize true true true true s o) as [s1 x]. cbn [fst] in Hi.
     pose proof (IH s1 Hi Hops) as H2.
-    destruct (kvs_run C clen cmem dirsize true true true s1 ops) as [s2 xs]. exact H2.
+    destruct (kvs_run C clen cmem dirsize true true true true s1 ops) as [s2 xs]. exact H2.
   Qed.
 
   (* what the invariant says, in the words of the property *)
@@ -922,12 +927,13 @@ Section CacheProofs.
 
   Theorem accounting_all_histories d0 mx ops :
     disk_ok C K d0 -> 0 <= mx -> Forall op_ok ops ->
-    accounting (fst (kvs_run C clen cmem dirsize true true true (open_cache C d0 mx) ops)).
+    accounting (fst (kvs_run C clen cmem dirsize true true true true (open_cache C d0 mx) ops)).
   Proof. intros Hd Hmx Hok. apply inv_accounting, run_inv; [apply open_inv; assumption | exact Hok]. Qed.
 
   Theorem refines_dictionary d0 m0 mx ops :
     disk_ok C K d0 -> 0 <= mx -> (forall k, In k K -> assoc m0 k = file_of C (lookup C d0 k)) -> Forall op_ok ops ->
-    snd (kvs_run C clen cmem dirsize true true true (open_cache C d0 mx) ops) = snd (spec_run C clen (mkS C m0 (norm_max mx)) ops).
+    mask C ops (snd (kvs_run C clen cmem dirsize true true true true (open_cache C d0 mx) ops))
+    = mask C ops (snd (spec_run C clen (mkS C m0 (norm_max mx)) ops)).
   Proof.
     intros Hd Hmx Hm Hok.
     apply (run_refines ops (open_cache C d0 mx) (mkS C m0 (norm_max mx))); [apply open_inv; assumption | | exact Hok].
@@ -937,7 +943,8 @@ Section CacheProofs.
   Theorem sessions_refine : forall ss d0 m0,
     disk_ok C K d0 -> (forall k, In k K -> assoc m0 k = file_of C (lookup C d0 k)) ->
     Forall (fun s => 0 <= fst s /\ Forall op_ok (snd s)) ss ->
-    snd (sessions_run C clen cmem dirsize true true true d0 ss) = snd (spec_sessions C clen m0 ss).
+    mask_sessions C ss (snd (sessions_run C clen cmem dirsize true true true true d0 ss))
+    = mask_sessions C ss (snd (spec_sessions C clen m0 ss)).
   Proof.
     induction ss as [|[mx ops] ss IH]; intros d0 m0 Hd Hm Hall; [reflexivity|].
     inversion Hall as [|? ? [Hmx Hok] Hrest]; subst. cbn [fst snd] in *. cbn [sessions_run spec_sessions].
@@ -945,12 +952,12 @@ Section CacheProofs.
     assert (R0 : Rel (open_cache C d0 mx) (mkS C m0 (norm_max mx))) by (split; [reflexivity | exact Hm]).
     destruct (run_refines ops _ _ I0 R0 Hok) as (E1 & I1 & R1).
     fold (norm_max mx).
-    destruct (kvs_run C clen cmem dirsize true true true (open_cache C d0 mx) ops) as [s xs] eqn:Ek.
+    destruct (kvs_run C clen cmem dirsize true true true true (open_cache C d0 mx) ops) as [s xs] eqn:Ek.
     destruct (spec_run C clen (mkS C m0 (norm_max mx)) ops) as [sp ys] eqn:Es.
-    cbn [fst snd] in *. subst ys.
+    cbn [fst snd] in *.
     specialize (IH (c_disk C s) (s_map C sp) (inv_disk _ I1) (proj2 R1) Hrest).
-    destruct (sessions_run C clen cmem dirsize true true true (c_disk C s) ss) as [d' zs].
-    destruct (spec_sessions C clen (s_map C sp) ss) as [m' ws]. cbn [snd] in *. subst ws. reflexivity.
+    destruct (sessions_run C clen cmem dirsize true true true true (c_disk C s) ss) as [d' zs].
+    destruct (spec_sessions C clen (s_map C sp) ss) as [m' ws]. cbn [snd mask_sessions] in *. rewrite E1, IH. reflexivity.
   Qed.
 
   Lemma disk_ok_empty : disk_ok C K [].
@@ -1059,7 +1066,7 @@ Section TableProofs.
     let old := match stored s n with Some f => f | None => [] end in
     (match stored s n with Some f => flen f <= c_max frame s | None => True end) ->
     flen (merge_frames old new) <= c_max frame s ->
-    exists s', tbl_set flen fmem dirsize true true s n new t1 t2 ch1 ch2 = (s', TSet) /\
+    exists s', tbl_set flen fmem dirsize true true true s n new t1 t2 ch1 ch2 = (s', TSet) /\
                Inv frame fmem K s' /\ c_max frame s' = c_max frame s /\
                stored s' n = Some (merge_frames old new) /\
                forall k, In k K -> k <> n -> stored s' k = stored s k.
@@ -1067,7 +1074,7 @@ Section TableProofs.
     intros I HnK old Hfit1 Hfit2. unfold tbl_set.
     destruct (get_inv frame flen fmem dirsize Hfm K s n t1 ch1 I HnK) as (s1 & Hg & I1 & Hd1 & Hm1).
     rewrite Hg. unfold stored in *.
-    assert (Emerged : exists s2, update_file frame flen fmem true true s1 n (merge_frames old new) t2 ch2 = (s2, inl true) /\
+    assert (Emerged : exists s2, update_file frame flen fmem true true true s1 n (merge_frames old new) t2 ch2 = (s2, inl true) /\
               Inv frame fmem K s2 /\ c_max frame s2 = c_max frame s1 /\
               lookup frame (c_disk frame s2) n = Some (File (merge_frames old new)) /\
               forall k, In k K -> k <> n ->
@@ -1088,7 +1095,7 @@ Section TableProofs.
   Theorem tbl_get_spec s n t ch :
     Inv frame fmem K s -> In n K ->
     (match stored s n with Some f => flen f <= c_max frame s | None => True end) ->
-    exists s', tbl_get flen fmem dirsize true true s n t ch = (s', match stored s n with Some f => TVal f | None => TUndef end) /\
+    exists s', tbl_get flen fmem dirsize true true true s n t ch = (s', match stored s n with Some f => TVal f | None => TUndef end) /\
                Inv frame fmem K s' /\ c_max frame s' = c_max frame s /\ forall k, stored s' k = stored s k.
   Proof.
     intros I HnK Hfit. unfold tbl_get.
@@ -1109,7 +1116,7 @@ Section TableProofs.
   Notation TRel := (Rel frame K).
 
   Lemma tbl_step_refines s sp o : Inv frame fmem K s -> TRel s sp -> top_ok o ->
-    exists s' x, tbl_step flen fmem dirsize true true true s o = (s', x) /\
+    exists s' x, tbl_step flen fmem dirsize true true true true s o = (s', x) /\
                  tspec_step flen sp o = (fst (tspec_step flen sp o), x) /\
                  Inv frame fmem K s' /\ TRel s' (fst (tspec_step flen sp o)).
   Proof.
@@ -1120,7 +1127,7 @@ Section TableProofs.
       assert (R1 : forall k, In k K -> assoc (s_map frame sp) k = file_of frame (lookup frame (c_disk frame s1) k))
         by (intros k Hk; rewrite Hd1; apply Rf; exact Hk).
       assert (Hupd : forall m,
-        exists s' x, (match update_file frame flen fmem true true s1 n m t2 ch2 with
+        exists s' x, (match update_file frame flen fmem true true true s1 n m t2 ch2 with
                       | (s2, inl true) => (s2, TSet) | (s2, inl false) => (s2, TErr KeyErr) | (s2, inr e) => (s2, TErr e) end) = (s', x) /\
           (if flen m >? c_max frame s then (sp, TErr MemoryErr)
            else (mkS frame (aset (s_map frame sp) n m) (c_max frame s), TSet)) =
@@ -1163,21 +1170,21 @@ Section TableProofs.
 
   (* T16.table over histories: the table store is a dictionary whose set is the documented merge *)
   Theorem tbl_run_refines : forall ops s sp, Inv frame fmem K s -> TRel s sp -> Forall top_ok ops ->
-    snd (tbl_run flen fmem dirsize true true true s ops) = snd (tspec_run flen sp ops) /\
-    Inv frame fmem K (fst (tbl_run flen fmem dirsize true true true s ops)).
+    snd (tbl_run flen fmem dirsize true true true true s ops) = snd (tspec_run flen sp ops) /\
+    Inv frame fmem K (fst (tbl_run flen fmem dirsize true true true true s ops)).
   Proof.
     induction ops as [|o ops IH]; intros s sp I R Hok; [simpl; auto|].
     inversion Hok as [|? ? Ho Hops]; subst.
     destruct (tbl_step_refines s sp o I R Ho) as (s' & x & Hk & Hs & Hi & Hr).
     cbn [tbl_run tspec_run]. rewrite Hk, Hs.
     destruct (IH s' (fst (tspec_step flen sp o)) Hi Hr Hops) as (E1 & E2).
-    destruct (tbl_run flen fmem dirsize true true true s' ops) as [s2 xs] eqn:Ek.
+    destruct (tbl_run flen fmem dirsize true true true true s' ops) as [s2 xs] eqn:Ek.
     destruct (tspec_run flen (fst (tspec_step flen sp o)) ops) as [sp2 ys] eqn:Es.
     cbn [fst snd] in *. subst ys. auto.
   Qed.
 
   Theorem tbl_fresh_refines mx ops : 0 <= mx -> Forall top_ok ops ->
-    snd (tbl_run flen fmem dirsize true true true (open_cache frame [] mx) ops)
+    snd (tbl_run flen fmem dirsize true true true true (open_cache frame [] mx) ops)
     = snd (tspec_run flen (mkS frame [] (norm_max mx)) ops).
   Proof.
     intros Hmx Hok. apply (tbl_run_refines ops (open_cache frame [] mx) (mkS frame [] (norm_max mx))); [| |exact Hok].
@@ -1187,43 +1194,43 @@ Section TableProofs.
 End TableProofs.
 
 (* ---------------------------------------------------------------- closing over the regenerated flags *)
-Lemma accounting_flag (ou pu b : bool) : ou = true -> pu = true -> b = true ->
+Lemma accounting_flag (ou pu tf b : bool) : ou = true -> pu = true -> tf = true -> b = true ->
   forall (C : Type) (clen cmem : C -> Z) (dirsize : Z), (forall c, 0 <= cmem c) ->
   forall K, prefix_free K -> forall d0 mx ops, disk_ok C K d0 -> 0 <= mx -> Forall (op_ok C K) ops ->
-  accounting C cmem (fst (kvs_run C clen cmem dirsize ou pu b (open_cache C d0 mx) ops)).
-Proof. intros -> -> ->. exact accounting_all_histories. Qed.
+  accounting C cmem (fst (kvs_run C clen cmem dirsize ou pu tf b (open_cache C d0 mx) ops)).
+Proof. intros -> -> -> ->. exact accounting_all_histories. Qed.
 
-Lemma refines_flag (ou pu b : bool) : ou = true -> pu = true -> b = true ->
+Lemma refines_flag (ou pu tf b : bool) : ou = true -> pu = true -> tf = true -> b = true ->
   forall (C : Type) (clen cmem : C -> Z) (dirsize : Z), (forall c, 0 <= cmem c) ->
   forall K, prefix_free K -> forall d0 m0 mx ops, disk_ok C K d0 -> 0 <= mx ->
   (forall k, In k K -> assoc m0 k = file_of C (lookup C d0 k)) -> Forall (op_ok C K) ops ->
-  snd (kvs_run C clen cmem dirsize ou pu b (open_cache C d0 mx) ops) = snd (spec_run C clen (mkS C m0 (norm_max mx)) ops).
-Proof. intros -> -> ->. exact refines_dictionary. Qed.
+  mask C ops (snd (kvs_run C clen cmem dirsize ou pu tf b (open_cache C d0 mx) ops)) = mask C ops (snd (spec_run C clen (mkS C m0 (norm_max mx)) ops)).
+Proof. intros -> -> -> ->. exact refines_dictionary. Qed.
 
-Lemma fresh_store_flag (ou pu b : bool) : ou = true -> pu = true -> b = true ->
+Lemma fresh_store_flag (ou pu tf b : bool) : ou = true -> pu = true -> tf = true -> b = true ->
   forall (C : Type) (clen cmem : C -> Z) (dirsize : Z), (forall c, 0 <= cmem c) ->
   forall K, prefix_free K -> forall mx ops, 0 <= mx -> Forall (op_ok C K) ops ->
-  snd (kvs_run C clen cmem dirsize ou pu b (open_cache C [] mx) ops) = snd (spec_run C clen (mkS C [] (norm_max mx)) ops).
+  mask C ops (snd (kvs_run C clen cmem dirsize ou pu tf b (open_cache C [] mx) ops)) = mask C ops (snd (spec_run C clen (mkS C [] (norm_max mx)) ops)).
 Proof.
-  intros Ho Hp Hb C clen cmem dirsize Hcm K HK mx ops Hmx Hok.
-  apply (refines_flag ou pu b Ho Hp Hb C clen cmem dirsize Hcm K HK [] [] mx ops); try assumption.
+  intros Ho Hp Ht Hb C clen cmem dirsize Hcm K HK mx ops Hmx Hok.
+  apply (refines_flag ou pu tf b Ho Hp Ht Hb C clen cmem dirsize Hcm K HK [] [] mx ops); try assumption.
   - apply disk_ok_empty. exact HK.
   - intros k Hk. destruct HK as [Hnil _]. destruct k; [contradiction | reflexivity].
 Qed.
 
-Lemma sessions_flag (ou pu b : bool) : ou = true -> pu = true -> b = true ->
+Lemma sessions_flag (ou pu tf b : bool) : ou = true -> pu = true -> tf = true -> b = true ->
   forall (C : Type) (clen cmem : C -> Z) (dirsize : Z), (forall c, 0 <= cmem c) ->
   forall K, prefix_free K -> forall ss d0 m0, disk_ok C K d0 ->
   (forall k, In k K -> assoc m0 k = file_of C (lookup C d0 k)) ->
   Forall (fun s => 0 <= fst s /\ Forall (op_ok C K) (snd s)) ss ->
-  snd (sessions_run C clen cmem dirsize ou pu b d0 ss) = snd (spec_sessions C clen m0 ss).
-Proof. intros -> -> ->. exact sessions_refine. Qed.
+  mask_sessions C ss (snd (sessions_run C clen cmem dirsize ou pu tf b d0 ss)) = mask_sessions C ss (snd (spec_sessions C clen m0 ss)).
+Proof. intros -> -> -> ->. exact sessions_refine. Qed.
 
-Lemma table_flag (ou pu cp : bool) : ou = true -> pu = true -> cp = true ->
+Lemma table_flag (ou pu tf cp : bool) : ou = true -> pu = true -> tf = true -> cp = true ->
   forall (flen fmem : frame -> Z) (dirsize : Z), (forall f, 0 <= fmem f) ->
   forall K, prefix_free K -> forall mx ops, 0 <= mx -> Forall (top_ok K) ops ->
-  snd (tbl_run flen fmem dirsize ou pu cp (open_cache frame [] mx) ops) = snd (tspec_run flen (mkS frame [] (norm_max mx)) ops).
-Proof. intros -> -> ->. exact tbl_fresh_refines. Qed.
+  snd (tbl_run flen fmem dirsize ou pu tf cp (open_cache frame [] mx) ops) = snd (tspec_run flen (mkS frame [] (norm_max mx)) ops).
+Proof. intros -> -> -> ->. exact tbl_fresh_refines. Qed.
 
 Lemma merge_flag (b : bool) : b = true -> forall old new i,
   first_row i (merge_frames old new) = match first_row i old with Some v => Some v | None => first_row i new end.
@@ -1258,7 +1265,7 @@ Definition op_okb {C} (K : list name) (o : op C) : bool :=
   match o with
   | OSet n _ _ _ | OGet n _ _ | OUnload n => existsb (name_eqb n) K
   | OReopen mx => Z.leb 0 mx
-  | OGetFault _ _ _ _ => false
+  | OGetFault n _ _ _ => existsb (name_eqb n) K
   end.
 
 Lemma op_okb_ok {C} K (ops : list (op C)) : forallb (op_okb K) ops = true -> Forall (op_ok C K) ops.
@@ -1266,5 +1273,5 @@ Proof.
   rewrite forallb_forall, Forall_forall. intros H o Ho. specialize (H o Ho).
   assert (Hin : forall n, existsb (name_eqb n) K = true -> In n K).
   { intros n Hn. apply existsb_exists in Hn. destruct Hn as (k & Hk & E). apply name_eqb_eq in E. subst. exact Hk. }
-  destruct o; simpl in *; try (apply Hin; exact H); try discriminate. apply Z.leb_le. exact H.
+  destruct o; simpl in *; try (apply Hin; exact H). apply Z.leb_le. exact H.
 Qed.
